@@ -74,6 +74,12 @@ def gen_ops(tier, rng):
         if d * p * size > 4_000_000:
             size = rng.choice(SIZES_SMALL)
         ops.append((f"upd {rng.choice(OPTSETS)} {d} {p} {size} {rng.randrange(1, 1<<30)} {lst(S)} {lst(nils)}", {"cat": "upd-seeded", "d": d}))
+    # Update on the goroutine-split path with worker windows far above 32 KiB (shards of 128 KiB .. 1 MiB), few and many
+    # goroutines, every tail class
+    for (d, p, size, o) in [(10, 4, 131136, "-"), (10, 4, 262144 + 17, "-"), (5, 3, (1 << 20) + 17, "-"), (5, 3, 200000, "g=2"),
+                            (4, 2, 524288 + 33, "g=3,ms=1024"), (12, 13, 300000, "gfni-,avxgfni-"), (3, 2, (1 << 20), "nosimd,g=4")]:
+        S = sorted(rng.sample(range(d), rng.randint(1, d)))
+        ops.append((f"upd {o} {d} {p} {size} {rng.randrange(1, 1<<30)} {lst(S)} -", {"cat": "upd-large", "d": max(d, 2)}))
     # empty but non-nil entries in newDatashards mean "not changed" (regression of fix 6e0b732)
     for _ in range(40 if tier == "quick" else 500):
         d = rng.randint(2, 10); p = rng.randint(1, 4)
